@@ -52,6 +52,7 @@ def synEval (salt : Nat) : Ev := fun lv p =>
     (if x % 3 = 0 then [⟨false, b!"r1-" ++ lv.str, b!"d1 " ++ p.name⟩] else []) ++
     (if x % 5 = 0 then [⟨false, b!"r2-" ++ lv.str, []⟩] else []) ++
     (if x % 7 = 0 then [⟨false, b!"shared", []⟩] else []) ++
+    (if x % 11 = 0 then [⟨false, [], b!"anon " ++ p.name⟩] else []) ++
     [⟨true, [], []⟩]
 
 def realEval : Ev := fun lv p => evalPodModel Generated.tables false lv p.pod
